@@ -197,6 +197,17 @@ mod dictionary {
         where
             for<'a> R: Region + Push<&'a [u8]>,
         {
+            // A literal is stored verbatim and `decode` distinguishes literals from dictionary tags
+            // by their first byte alone. Refuse a literal that would read back as a dictionary
+            // entry: it is not covered by the statistics the dictionary was built from.
+            if !self.encode.contains_key(bytes) {
+                if let Some(&tag) = bytes.first() {
+                    assert!(
+                        self.decode.get(tag.into()).is_none(),
+                        "cannot encode {bytes:?}: first byte {tag} is a dictionary tag"
+                    );
+                }
+            }
             self.total += bytes.len();
             // If we have an index referencing `bytes`, use the index key.
             let index = if let Some(b) = self.encode.get(bytes) {
